@@ -89,4 +89,4 @@ unsigned int F___cxa_guard_acquire(unsigned long *g) { return *(unsigned char *)
 void F___cxa_guard_release(unsigned long *g) { *(unsigned char *) g = 1; }
 unsigned int F___cxa_atexit(void *f, void *a, void *d) { return 0; }
 unsigned char g___dso_handle;
-unsigned char *g__ZTVSt9bad_alloc[8], *g__ZTVSt12system_error[8], *g__ZTVSt13runtime_error[8];
+unsigned char *g__ZTISt9bad_alloc, *g__ZTISt9exception, *g__ZTISt12out_of_range, *g__ZTISt12system_error, *g__ZTISt12domain_error, *g__ZTISt11range_error, *g__ZTISt20bad_array_new_length;
